@@ -17,13 +17,16 @@ import (
 
 // A block-decoding case: (src, len(dst), dict) plus where the three slices are placed.
 type decCase struct {
-	Src    []byte `json:"src"`
-	DstLen int    `json:"dstlen"`
-	Dict   []byte `json:"dict,omitempty"`
-	Spare  int    `json:"spare"`  // spare capacity behind dst (canaried)
-	Fill   int    `json:"fill"`   // prior contents of dst: 0 = 0x00, 1 = 0xFF, >= 2 = pseudo-random (seed)
-	Place  string `json:"place"`  // end: src/dst/dict each end at an unmapped page; start: dst starts right after one
-	Origin string `json:"origin"` // how the case was generated (classification only)
+	Src       []byte `json:"src"`
+	DstLen    int    `json:"dstlen"`
+	Dict      []byte `json:"dict,omitempty"`
+	Spare     int    `json:"spare"`               // spare capacity behind dst (canaried)
+	Fill      int    `json:"fill"`                // prior contents of dst: 0 = 0x00, 1 = 0xFF, >= 2 = pseudo-random (seed)
+	Place     string `json:"place"`               // end: src/dst/dict each end at an unmapped page; start: dst starts right after one
+	Origin    string `json:"origin"`              // how the case was generated (classification only)
+	SrcSpare  int    `json:"srcspare,omitempty"`  // spare capacity behind src (filled with SparePat)
+	DictSpare int    `json:"dictspare,omitempty"` // spare capacity behind dict
+	SparePat  int    `json:"sparepat,omitempty"`  // content of the spare capacities of src and dict
 }
 
 type decResult struct {
@@ -31,6 +34,7 @@ type decResult struct {
 	N      int
 	Out    []byte // dst[:N] when Status == ok
 	Detail string
+	Whole  []byte // the whole dst[:len] after the call (only kept when src or dict has spare capacity)
 }
 
 const (
@@ -80,7 +84,7 @@ func execDecode(c decCase) (res decResult) {
 	if err := arenas(); err != nil {
 		return decResult{Status: "harness", Detail: err.Error()}
 	}
-	if len(c.Src) > arenaSrc || c.DstLen+c.Spare+8192 > arenaDst || len(c.Dict) > arenaDict || c.DstLen < 0 {
+	if len(c.Src)+c.SrcSpare > arenaSrc || c.DstLen+c.Spare+8192 > arenaDst || len(c.Dict)+c.DictSpare > arenaDict || c.DstLen < 0 {
 		return decResult{Status: "harness", Detail: "case too large for the arenas"}
 	}
 	arenaMu.Lock()
@@ -94,8 +98,9 @@ func execDecode(c decCase) (res decResult) {
 		dst = reg[0 : c.DstLen : c.DstLen+c.Spare]
 		after = reg[c.DstLen : c.DstLen+c.Spare+lead]
 	} else {
-		src = aSrc.End(len(c.Src), 0)
-		dict = aDict.End(len(c.Dict), 0)
+		// (End fills the spare capacity with the canary pattern; it is overwritten with SparePat below)
+		src = aSrc.End(len(c.Src), c.SrcSpare)
+		dict = aDict.End(len(c.Dict), c.DictSpare)
 		dst = aDst.End(c.DstLen, c.Spare)
 		reg := aDst.Region()
 		start := len(reg) - c.DstLen - c.Spare
@@ -104,6 +109,12 @@ func execDecode(c decCase) (res decResult) {
 	}
 	copy(src, c.Src)
 	copy(dict, c.Dict)
+	if c.Place != "start" {
+		// bytes that lie within the capacity but beyond the length of src and dict: a decoder that reads them
+		// makes its output depend on SparePat
+		prefill(src[len(src):cap(src)], 100+c.SparePat)
+		prefill(dict[len(dict):cap(dict)], 200+c.SparePat)
+	}
 	prefill(dst, c.Fill)
 	inst.FillCanary(before)
 	inst.FillCanary(after)
@@ -135,11 +146,18 @@ func execDecode(c decCase) (res decResult) {
 		return decResult{Status: "canary", N: n, Detail: fmt.Sprintf("byte %d before dst was modified (n=%d err=%v)", i-len(before), n, err)}
 	}
 	if err != nil {
-		return decResult{Status: "error", N: n, Detail: err.Error()}
+		r := decResult{Status: "error", N: n, Detail: err.Error()}
+		if c.SrcSpare > 0 || c.DictSpare > 0 {
+			r.Whole = append([]byte(nil), dst...)
+		}
+		return r
 	}
 	res = decResult{Status: "ok", N: n}
 	if n >= 0 && n <= len(dst) {
 		res.Out = append([]byte(nil), dst[:n]...)
+	}
+	if c.SrcSpare > 0 || c.DictSpare > 0 {
+		res.Whole = append([]byte(nil), dst...)
 	}
 	return res
 }
